@@ -19,7 +19,7 @@ pub struct Crash {
 
 const FLAG_MENU: [&str; 12] = ["", "i", "m", "s", "x", "q", "ims", "imsx", "qi", "xq", "sm;g", "z"];
 const FLAG_MENU_AST: [&str; 6] = ["", "i", "m", "s", "ims", "x"];
-const REPLS: [&str; 9] = ["", "x", "$0", "$1", "$12", "\\$", "$", "\\", "$a"];
+const REPLS: [&str; 13] = ["", "x", "$0", "$1", "$12", "\\$", "$", "\\", "$a", "$\u{663}", "$\u{b2}", "$1\u{663}", "\\\u{663}"];
 const FLAG_LETTERS: [&str; 11] = ["s", "m", "i", "x", "q", ";", "g", "k", "K", "z", " "];
 
 fn space_for(tier: Tier) -> Space {
@@ -29,23 +29,25 @@ fn space_for(tier: Tier) -> Space {
             s.ast("K", 4, 64).ast("Q", 2, 64).ast("CL", 3, 64).ast("G", 5, 64).ast("AN", 3, 64).ast("U", 3, 64).ast("ALT", 3, 64).ast("NEST", 5, 64).ast("CAPQ", 5, 64).ast("BR", 4, 64);
             // one more kernel level, lighter: flags "" and "m", inputs of length <= 2
             s.ast_range("K", 5, 5, 256, 2);
-            s.tok("T", &gen::T_FULL, 3, 64).tok("T0", &gen::T_CORE, 3, 64).tok("TU", &gen::T_UNI, 3, 64).tok("TQ", &gen::T_QUANT, 4, 64).tok("TG", &gen::T_GROUP, 5, 64).tok("TC", &gen::T_CLS, 4, 64);
+            s.tok("T", &gen::T_FULL, 3, 64).tok("T0", &gen::T_CORE, 3, 64).tok("TU", &gen::T_UNI, 3, 64).tok("TQ", &gen::T_QUANT, 4, 64).tok("TG", &gen::T_GROUP, 5, 64).tok("TC", &gen::T_CLS, 4, 64).tok("TX", &gen::T_XCLS, 4, 64);
             s.ast("Z", 5, 64).ast("NESTN", 4, 64);
             s.list("flagstrings", 1 + 11 + 121 + 1331, 128);
             s.list("triggers", crate::checks::c08::triggers().len() as u64, 16);
             s.list("whitespace under x", xws_crash_cases().len() as u64, 16);
             s.list("extreme counts", extreme_count_cases().len() as u64, 16);
             s.list("deep nesting", (DEEP_SHAPES.len() * DEEP_DEPTHS.len()) as u64, 1);
+            s.list("escape names", escape_name_cases().len() as u64, 32);
         }
         Tier::Thorough => {
             s.ast("K", 5, 64).ast("Q", 3, 64).ast("CL", 3, 64).ast("G", 6, 64).ast("AN", 4, 64).ast("U", 4, 64).ast("CI", 3, 64).ast("ALT", 4, 64).ast("NEST", 6, 64).ast("GCM", 4, 64).ast("CAPQ", 6, 64).ast("BR", 5, 64);
-            s.tok("T", &gen::T_FULL, 3, 64).tok("T0", &gen::T_CORE, 5, 64).tok("TU", &gen::T_UNI, 4, 64).tok("TQ", &gen::T_QUANT, 5, 64).tok("TG", &gen::T_GROUP, 6, 64).tok("TC", &gen::T_CLS, 5, 64);
+            s.tok("T", &gen::T_FULL, 3, 64).tok("T0", &gen::T_CORE, 5, 64).tok("TU", &gen::T_UNI, 4, 64).tok("TQ", &gen::T_QUANT, 5, 64).tok("TG", &gen::T_GROUP, 6, 64).tok("TC", &gen::T_CLS, 5, 64).tok("TX", &gen::T_XCLS, 5, 64);
             s.ast("Z", 6, 64).ast("NESTN", 5, 64);
             s.list("flagstrings", 1 + 11 + 121 + 1331, 128);
             s.list("triggers", crate::checks::c08::triggers().len() as u64, 16);
             s.list("whitespace under x", xws_crash_cases().len() as u64, 16);
             s.list("extreme counts", extreme_count_cases().len() as u64, 16);
             s.list("deep nesting", (DEEP_SHAPES.len() * DEEP_DEPTHS.len()) as u64, 1);
+            s.list("escape names", escape_name_cases().len() as u64, 32);
         }
     }
     s
@@ -131,6 +133,31 @@ pub fn deep_case_main(shape: usize, depth: usize, xsd: bool) -> String {
         o => v.push(format!("compile=CRASH {:?}", o.map(|_| ()))),
     }
     v.join(" ")
+}
+
+/// Category / block escapes whose name is any string of up to three symbols over
+/// letters of one to four UTF-8 bytes, braces and blanks, bare and inside a group.
+pub fn escape_name_cases() -> Vec<String> {
+    let syms = ["L", "u", "I", "s", "\u{e9}", "\u{20ac}", "\u{1F600}", "{", "}", " ", "-"];
+    let mut names: Vec<String> = vec![String::new()];
+    let mut layer: Vec<String> = vec![String::new()];
+    for _ in 0..3 {
+        let mut next = vec![];
+        for n in &layer {
+            for s in syms {
+                next.push(format!("{}{}", n, s));
+            }
+        }
+        names.extend(next.iter().cloned());
+        layer = next;
+    }
+    let mut v = vec![];
+    for n in names {
+        v.push(format!("\\p{{{}}}", n));
+        v.push(format!("[\\P{{{}}}a]", n));
+        v.push(format!("\\p{{{}", n));
+    }
+    v
 }
 
 fn flag_string(mut idx: u64) -> String {
@@ -333,6 +360,23 @@ impl Check for Crash {
                         }
                     }
                     j.out.sample(J::obj(vec![("shape", J::s(DEEP_SHAPES[shape])), ("depth", J::i(depth))]));
+                }
+            }
+            SegKind::List { name: "escape names" } => {
+                let t = escape_name_cases();
+                let inputs: Vec<String> = ["", "a", "L\u{e9}", "\u{20ac}"].iter().map(|s| s.to_string()).collect();
+                for i in lo..hi {
+                    let text = &t[i as usize];
+                    for (flags, xsd) in [("", false), ("x", false), ("", true)] {
+                        j.out.pin(&|| format!("compile {:?} {:?}", text, flags));
+                        let c = imp::compile(text, flags, xsd);
+                        j.obs(&Case::new(&scope_name, text, flags).xsd(xsd).api("compile"), &c, &[EK::Syntax, EK::InvalidFlags]);
+                        if let Out::Ok(re) = c {
+                            j.out.inc("nontrivial");
+                            drive(&mut j, &scope_name, text, flags, xsd, &re, &inputs, &["<$0>"], usize::MAX);
+                        }
+                    }
+                    j.out.sample(J::obj(vec![("pattern", J::s(text))]));
                 }
             }
             SegKind::List { name: "extreme counts" } => {
